@@ -173,10 +173,16 @@ def superdiag(ctx, d, n):
     return Y, a
 
 
-def h_svd_superdiag(ctx, d, n, with_cap, pad=None):
+def h_svd_superdiag(ctx, d, n, with_cap, pad=None, int_weights=None):
     """pad: extra zero slices per mode (non-uniform shapes, very tall / very wide
     unfoldings; the spectrum of every unfolding stays {a_i})."""
     Y, a = superdiag(ctx, d, n)
+    if int_weights is not None:
+        # a dense array of integer dtype (counts, labels): the cores are real-valued all the same
+        a = [ctx.const(int(w)) for w in int_weights]
+        Y = np.zeros((n,) * d, dtype=int)
+        for i in range(n):
+            Y[(i,) * d] = int(int_weights[i])
     shape = [n] * d
     if pad:
         shape = [n + p for p in pad]
@@ -209,6 +215,25 @@ def h_svd_superdiag(ctx, d, n, with_cap, pad=None):
     # exact low rank reproduced: if e below the smallest weight and no cap, exact
     if not with_cap:
         ctx.claim('exact_when_e_small', ctx.any_([ctx.ge(e2, sa[-1] * sa[-1]), ctx.eq(err2, 0)]))
+
+
+def h_svd_int_dense(ctx, transpose):
+    """TT-SVD of a dense array of integer dtype whose factors are not integer
+    valued (columns with disjoint supports: normalised columns 3/5, 4/5, ...):
+    the cores are real valued and the error bound holds."""
+    Y = np.array([[3, 0], [4, 0], [0, 1], [0, 2]])
+    if transpose:
+        Y = Y.T.copy()
+    e = ctx.real('e')
+    ctx.assume(ctx.gt(e, 0))
+    Z = teneva.svd(Y, e)
+    ctx.claim('well_formed', well_formed(Z, list(Y.shape)))
+    Yc = np.array([[ctx.const(int(v)) for v in row] for row in Y], dtype=object if is_sym(ctx) else float)
+    err2 = sumsq(ref_full(Z) - Yc)
+    ctx.claim('error_bound', ctx.le(err2, e * e))
+    ctx.claim('exact_when_e_small', ctx.any_([ctx.ge(e * e, 5), ctx.eq(err2, 0)]))
+    ctx.claim('input_untouched', bool(np.array_equal(Y, np.array([[3, 0], [4, 0], [0, 1], [0, 2]]).T if transpose
+                                                     else np.array([[3, 0], [4, 0], [0, 1], [0, 2]]))))
 
 
 def _unfold_spectrum2(ctx, M):
@@ -339,6 +364,10 @@ def instances(tier):
             if tier == 'quick' and n == 3 and cap:
                 continue
             out.append({'func': 'h_svd_superdiag', 'params': {'d': d, 'n': n, 'with_cap': cap}})
+    for tr in (False, True):
+        out.append({'func': 'h_svd_int_dense', 'params': {'transpose': tr}})
+    for w in ([3, 2], [2, 5]):
+        out.append({'func': 'h_svd_superdiag', 'params': {'d': 3, 'n': 2, 'with_cap': False, 'int_weights': w}})
     # non-uniform shapes: first unfolding 9 x 4 (very tall), 2 x 12 (very wide), middle one tall
     for pad in ([7, 0, 0], [0, 0, 4], [2, 3, 0]):
         for cap in (False, True):
